@@ -96,6 +96,22 @@ type DN struct {
 	Val int
 }
 
+// WN: a WRAPPER node - a struct whose only field is a struct: the node and its field In are
+// distinct values of different types at the SAME address (same kind, same size).
+type WInner struct {
+	Next  *WN
+	Other *WN
+	V     int
+}
+type WN struct{ In WInner }
+
+// AN: a one-element array of structs behind a pointer (the array and its element share address and size).
+type AN [1]struct {
+	Next  *AN
+	Other *AN
+	V     int
+}
+
 // PN: plain pointer fields.  The type reaches itself through pointer-to-struct
 // fields only, so it is usable with the copier but not with Config (finding 15).
 type PN struct {
@@ -120,7 +136,15 @@ type IP struct {
 	PH   *[]int // &S (the slice header field)
 	Any  interface{}
 	Next *IP
+	W    *IPW   // a wrapper struct (only field: a struct) ...
+	WIn  *IPWIn // ... and a pointer to that field: two objects of different types at one address
 }
+
+type IPWIn struct {
+	X int
+	B *IPW
+}
+type IPW struct{ In IPWIn }
 
 // IPCfg wraps IP nodes behind a slice so that dials.Config accepts the type.
 type IPCfg struct {
@@ -150,6 +174,12 @@ func buildIP(r *coqfmt.Rng, n int) *IPCfg {
 		}
 		if r.Chance(1, 2) {
 			nd.PH = &t.S
+		}
+		if r.Chance(1, 2) {
+			w := &IPW{In: IPWIn{X: 5}}
+			w.In.B = w
+			nd.W, t.W = w, w
+			nd.WIn = &w.In
 		}
 		switch r.Intn(4) {
 		case 0:
@@ -810,6 +840,39 @@ func hasRefKeys(v reflect.Value, seen map[[2]uintptr]bool) bool {
 	return false
 }
 
+func buildWN(g *gen, n int) []*WN {
+	nodes := make([]*WN, n)
+	for i := range nodes {
+		nodes[i] = &WN{In: WInner{V: i}}
+	}
+	for i, nd := range nodes {
+		if t := g.target(i, n); t >= 0 {
+			nd.In.Next = nodes[t]
+		}
+		if t := g.target(i, n); t >= 0 {
+			nd.In.Other = nodes[t]
+		}
+	}
+	return nodes
+}
+
+func buildAN(g *gen, n int) []*AN {
+	nodes := make([]*AN, n)
+	for i := range nodes {
+		nodes[i] = &AN{}
+		nodes[i][0].V = i
+	}
+	for i, nd := range nodes {
+		if t := g.target(i, n); t >= 0 {
+			nd[0].Next = nodes[t]
+		}
+		if t := g.target(i, n); t >= 0 {
+			nd[0].Other = nodes[t]
+		}
+	}
+	return nodes
+}
+
 func buildDN(g *gen, n int) []*DN {
 	nodes := make([]*DN, n)
 	for i := range nodes {
@@ -916,6 +979,9 @@ func (s *shape) walk(v reflect.Value, viaIface bool, holder [2]uintptr) {
 // ---- type graph for finding 15 (decided in Coq: Canon.type_reaches_itself) ----
 
 func typeGraph(root reflect.Type) (string, int) {
+	if root.Kind() != reflect.Struct {
+		return "[]", 0
+	}
 	ids := map[reflect.Type]int{}
 	var order []reflect.Type
 	var visit func(t reflect.Type) int
@@ -987,6 +1053,10 @@ func buildRoot(in input) (reflect.Value, reflect.Type) {
 		p, m, sl = reflect.ValueOf(n), reflect.ValueOf(n.MA), reflect.ValueOf(n.Anys)
 	case "DN":
 		p = reflect.ValueOf(buildDN(g, in.N)[0])
+	case "WN":
+		p = reflect.ValueOf(buildWN(g, in.N)[0])
+	case "AN":
+		p = reflect.ValueOf(buildAN(g, in.N)[0])
 	default:
 		p = reflect.ValueOf(buildPN(g, in.N)[0])
 	}
@@ -1282,9 +1352,9 @@ func genInputs(r *coqfmt.Rng, n int, tier string) []json.RawMessage {
 		add(input{K: "interior", State: r.U64(), Fam: "IP", N: 1 + r.Intn(4), Mode: r.Intn(2)})
 	}
 	for i := 0; i < n; i++ {
-		fam := []string{"SN", "IN", "IN", "PN", "DN"}[r.Intn(5)]
+		fam := []string{"SN", "SN", "IN", "IN", "IN", "PN", "DN", "WN", "AN"}[r.Intn(9)]
 		mode := r.Intn(2)
-		if fam == "PN" || fam == "DN" {
+		if fam == "PN" || fam == "DN" || fam == "WN" || fam == "AN" {
 			mode = 0
 		}
 		nn := 1 + r.Intn(maxN)
